@@ -98,37 +98,38 @@ type PathStats struct {
 }
 
 type Path struct {
-	ctx        *smt.Ctx
-	pc         []*smt.Term
-	pcSet      map[int32]bool
-	pins       map[string]uint64
-	substMem   map[int32]*smt.Term
-	model      smt.Model
-	ev         *smt.Evaluator
-	prefix     []Decision
-	pos        int
-	taken      []Decision
-	pending    []WorkItem
-	solver     *smt.Solver
-	varMemo    map[int32][]*smt.Term
-	draws      []Draw
-	harness    string
-	maxSteps   int64
-	stats      PathStats
-	viol       *Violation
-	outcome    string
-	watch      map[string]bool // functions under wrap-around watch
-	watching   int
-	watchAcc   *smt.Term
-	bounds     map[string][2]int64 // declared signed domains of 64-bit variables
-	watchHere  bool                // the instruction being executed belongs to a watched function's own body
-	noMerge    bool
-	existsVars map[string]bool
-	inExists   bool
-	actor      int
-	foot       *footprint
-	blobs      []gobBlob
-	funcs      map[string]bool
+	ctx         *smt.Ctx
+	pc          []*smt.Term
+	pcSet       map[int32]bool
+	pins        map[string]uint64
+	substMem    map[int32]*smt.Term
+	model       smt.Model
+	ev          *smt.Evaluator
+	prefix      []Decision
+	pos         int
+	taken       []Decision
+	pending     []WorkItem
+	solver      *smt.Solver
+	varMemo     map[int32][]*smt.Term
+	draws       []Draw
+	harness     string
+	maxSteps    int64
+	stats       PathStats
+	viol        *Violation
+	outcome     string
+	watch       map[string]bool // functions under wrap-around watch
+	watching    int
+	watchAcc    *smt.Term
+	bounds      map[string][2]int64 // declared signed domains of 64-bit variables
+	watchHere   bool
+	speculating int
+	noMerge     bool
+	existsVars  map[string]bool
+	inExists    bool
+	actor       int
+	foot        *footprint
+	blobs       []gobBlob
+	funcs       map[string]bool
 }
 
 func newPath(item WorkItem, solver *smt.Solver, harness string, maxSteps int64) *Path {
@@ -448,6 +449,9 @@ func (p *Path) branch(c *smt.Term) bool {
 	if p.inExists {
 		panic(engineError{"symbolic branch inside Exists body (use rt.And/Or/Ite to stay branch-free): " + trunc(c.String(), 200)})
 	}
+	if p.speculating > 0 {
+		panic(mergeAbort{"branch"})
+	}
 	if d, ok := p.follow('b'); ok {
 		if d.Taken {
 			p.addPC(c)
@@ -488,6 +492,9 @@ func (p *Path) concretize(t *smt.Term) uint64 {
 		}
 		if p.inExists {
 			panic(engineError{"concretisation inside Exists body: " + trunc(t.String(), 200)})
+		}
+		if p.speculating > 0 {
+			panic(mergeAbort{"concretize"})
 		}
 		if d, ok := p.follow('c'); ok {
 			kv := p.constOf(t, d.Val)
